@@ -1,9 +1,12 @@
 # -*- coding: utf-8 -*-
 """WorkChains that hand futures and child processes to the context (used by C10 and by part (ii) of C06).
 
-A unit is ``(spec, listener_script)`` with ``spec = (items, how, reassign)``:
-    items     tuple of (kind, outcome): kind 'gate' (a loop future completed by the environment) or 'child' (a process
-              launched from the step, which waits for its own gate); outcome 'ok' | 'exc' | 'kill' (children only)
+A unit is ``(spec, listener_script)`` with ``spec = (items, how, reassign[, shape])``:
+    items     tuple of (kind, outcome): kind 'gate' (a loop future completed by the environment), 'done' (a loop future
+              that is already resolved when it is handed over) or 'child' (a process launched from the step, which waits
+              for its own gate); outcome 'ok' | 'exc' | 'kill' (children only)
+    shape     where the registering step sits in the outline: 'flat' (s1, s2, s3) | 'while' (while_(once)(s1), s2, s3) |
+              'if' (if_(yes)(s1), s2, s3) | 'while-if' (while_(once)(if_(yes)(s1)), s2, s3)
     how       'return' (return ToContext(...)) | 'call' (self.to_context(...)) | 'both' (first item by call, rest returned)
     reassign  whether the step after the barrier assigns another value to the first key
 """
@@ -58,7 +61,8 @@ _CLASSES: Dict[Any, type] = {}
 def make_chain(spec: tuple) -> type:
     if spec in _CLASSES:
         return _CLASSES[spec]
-    items, how, reassign = spec
+    items, how, reassign = spec[:3]
+    shape = spec[3] if len(spec) > 3 else 'flat'
 
     def s1(self: Any) -> Any:
         env = programs.ENV
@@ -67,6 +71,10 @@ def make_chain(spec: tuple) -> type:
         for i, (kind, outcome) in enumerate(items):
             if kind == 'gate':
                 handles[f'k{i}'] = env.gate(self, i)
+            elif kind == 'done':
+                fut = env.gate(self, i)
+                env.complete_now(i)
+                handles[f'k{i}'] = fut
             else:
                 child = self.launch(Child, inputs={'i': i, 'fail': outcome == 'exc'}, pid=f'child{i}')
                 env.children[i] = child
@@ -95,9 +103,19 @@ def make_chain(spec: tuple) -> type:
         env.at_s3 = {k: self.ctx.get(k, '<missing>') for k in env.awaited}
         return None
 
+    def once(self: Any) -> bool:
+        first = not self.ctx.get('looped', False)
+        self.ctx.looped = True
+        return first
+
+    def yes(self: Any) -> bool:
+        return True
+
     def define(cls: Any, spec_: Any) -> None:
         super(klass, cls).define(spec_)
-        spec_.outline(cls.s1, cls.s2, cls.s3)
+        first = {'flat': cls.s1, 'while': wc.while_(cls.once)(cls.s1), 'if': wc.if_(cls.yes)(cls.s1),
+                 'while-if': wc.while_(cls.once)(wc.if_(cls.yes)(cls.s1))}[shape]
+        spec_.outline(first, cls.s2, cls.s3)
 
     def __init__(self: Any, *args: Any, **kwargs: Any) -> None:
         plumpy.WorkChain.__init__(self, *args, **kwargs)
@@ -106,7 +124,7 @@ def make_chain(spec: tuple) -> type:
             programs.ENV.attach(self)
 
     name = f'Barrier_{digest(spec)}'
-    klass = type(name, (plumpy.WorkChain,), {'s1': s1, 's2': s2, 's3': s3, 'define': classmethod(define),
+    klass = type(name, (plumpy.WorkChain,), {'s1': s1, 's2': s2, 's3': s3, 'once': once, 'yes': yes, 'define': classmethod(define),
                                              '__init__': __init__, '__module__': __name__})
     setattr(sys.modules[__name__], name, klass)
     _CLASSES[spec] = klass
@@ -131,6 +149,10 @@ class WcWorld(ctl.World):
         self.at_s3: Optional[Dict[str, Any]] = None
         self.completion_order: List[Any] = []
         self.kill_requested: set = set()
+        # a plain Process is instantiated before the work chain class is first used (the order in which classes are
+        # first instantiated must not matter)
+        warm = plumpy.Process(pid='warm-up', loop=self.loop)
+        warm.close()
 
     def record(self, proc: Any, name: str, args: tuple, kwargs: dict, phase: str) -> None:
         rec = (name, tuple(args), tuple(sorted(kwargs.items())), phase, proc.paused, proc.status,
@@ -168,6 +190,9 @@ class WcWorld(ctl.World):
 
         return run
 
+    def complete_now(self, g: int) -> None:
+        self._gate_thunk(g)()
+
     def _kill_thunk(self, i: int) -> Callable[[], None]:
         def run() -> None:
             self.completion_order.append(('kill', i))
@@ -198,5 +223,5 @@ class WcWorld(ctl.World):
 def expected_values(world: WcWorld) -> Dict[str, Any]:
     out = {}
     for i, (kind, outcome) in enumerate(world.items):
-        out[f'k{i}'] = f'g{i}' if kind == 'gate' else {'res': f'c{i}'}
+        out[f'k{i}'] = f'g{i}' if kind in ('gate', 'done') else {'res': f'c{i}'}
     return out
